@@ -34,6 +34,56 @@ class Hole(Edit):
     def describe(self):
         return f"{self.kind}: {' '.join(self.old.split())[:90]} => {' '.join(self.new.split())[:60]} [sha256 {hashlib.sha256(self.old.encode()).hexdigest()[:12]}]" + (f" ({self.why})" if self.why else "")
 
+class SplitOrGuards(Edit):
+    """Verus rejects `A | B if g => body`: rewritten mechanically to `A if g => body, B if g => body` (the same guard and body text
+    duplicated; Rust evaluates the guard after either alternative matched, so the meaning is unchanged). Applies to every match arm
+    of the function whose pattern has a top-level `|` and a guard."""
+    kind = "rewrite"
+    def __init__(self):
+        self.n = 0
+    def apply(self, text, ctx):
+        out, i = [], 0
+        # an arm starts at a line start; pattern runs to ` if ` at depth 0, guard to `=>` at depth 0, body is a block or an expression up to `,`
+        pat = re.compile(r"(?m)^(?P<ind>[ \t]+)(?P<pat>[A-Za-z_][^\n=]*\|[^\n=]*?)\n?\s+if\b")
+        while True:
+            m = pat.search(text, i)
+            if not m: break
+            g0 = m.end()
+            depth, k = 0, g0
+            while k < len(text) and not (depth == 0 and text.startswith("=>", k)):
+                if text[k] in "([{": depth += 1
+                elif text[k] in ")]}": depth -= 1
+                k += 1
+            guard = text[g0:k]
+            b0 = k + 2
+            while text[b0] in " \n\t": b0 += 1
+            if text[b0] == "{":
+                depth, e = 0, b0
+                while True:
+                    if text[e] == "{": depth += 1
+                    elif text[e] == "}":
+                        depth -= 1
+                        if depth == 0: break
+                    e += 1
+                e += 1
+                if text[e:e+1] == ",": e += 1
+            else:
+                depth, e = 0, b0
+                while not (depth == 0 and text[e] == ","):
+                    if text[e] in "([{": depth += 1
+                    elif text[e] in ")]}": depth -= 1
+                    e += 1
+                e += 1
+            body = text[b0:e].rstrip(",")
+            alts = [a.strip() for a in m.group("pat").split("|")]
+            arms = "".join(f"{m.group('ind')}{a} if{guard}=> {body},\n" for a in alts)
+            out.append(text[i:m.start()]); out.append(arms.rstrip("\n"))
+            i = e; self.n += 1
+        out.append(text[i:])
+        return "".join(out)
+    def describe(self):
+        return f"rewrite: {self.n} match arm(s) `A | B if g => e` split into one arm per alternative with the same guard and body (Verus does not accept an or-pattern with a guard)"
+
 class Between(Edit):
     """replace the text from the first occurrence of `start` through the first occurrence of `end` after it
     (both inclusive) by `new`: a hole whose dropped text is identified by its two ends and its sha256"""
